@@ -269,8 +269,48 @@ def r5_decode_errors(ctx, rid='C08.R5'):
             r.check(bool(edges), 'decode_frame|err-edge|' + t['fn'].replace('frame::', ''), df.loc(bi), 'the Err outcome of %s is branched on' % t['fn'])
 
 
+def r3_decode_panics(ctx, rid='C08.R3'):
+    import collections
+    import json
+    import os
+    from .. import panics
+    r = ctx.rule(rid, 'CENSUS', 'decode region: constant-index accesses are dominated by a sufficient length test; every other panic-capable site is reviewed')
+    F = ctx.facts
+    table = json.load(open(os.path.join(os.path.dirname(os.path.abspath(__file__)), 'C08_sites.json')))['sites']
+    seen = collections.Counter()
+    auto = collections.Counter()
+    where = {}
+    for s in panics.sites(F):
+        if s['status'] == 'BAD':
+            r.bad('const-oob|%s|%s' % (s['fn'], s['sig']), s['f'].loc(s['bi']), 'constant index outside a constant-length array in %s' % s['fn'])
+        elif s['status']:
+            auto[s['status']] += 1
+            if s['kind'] in ('bounds', 'slice'):
+                r.ok('guarded|%s|%s|%s' % (s['fn'], s['kind'], s['sig']), s['f'].loc(s['bi']), '%s: %s (%s)' % (s['kind'], s['need'], s['status']))
+        else:
+            k = '%s|%s|%s' % (s['fn'], s['kind'], s['sig'])
+            seen[k] += 1
+            where.setdefault(k, s)
+    for st, n in sorted(auto.items()):
+        r.stat(st, n)
+    for k, n in sorted(seen.items()):
+        s = where[k]
+        ent = table.get(k)
+        if ent is not None and n <= ent['count']:
+            r.ok('reviewed|' + k, s['f'].loc(s['bi']), ent['reason'])
+        else:
+            what = {'bounds': 'index', 'slice': 'slice range', 'overflow': 'arithmetic', 'panic': 'panic / unwrap / assert'}.get(s['kind'], s['kind'])
+            r.bad('unreviewed|' + k, s['f'].loc(s['bi']),
+                  '%s in %s (%s; needs %s) is reachable from peer input and is neither dominated by a sufficient guard nor in the reviewed table%s: a frame crafted by the peer can panic the connection task'
+                  % (what, s['fn'], s['sig'], s['need'], '' if ent is None else ' (%d copies, %d reviewed)' % (n, ent['count'])),
+                  witness=core.compress_path(s['f'], s['f'].path_between(0, s['bi']) or []))
+    r.floor(auto.get('auto:length-test-dominates', 0), 20, 'constant-index accesses discharged by a dominating length test')
+    r.floor(sum(seen.values()), 25, 'reviewed residual sites (the census sees the decode region)')
+
+
 def run(ctx):
     r1_slots(ctx)
     r2_buffer_guard(ctx)
+    r3_decode_panics(ctx)
     r4_loops(ctx)
     r5_decode_errors(ctx)
